@@ -239,6 +239,6 @@ Fixpoint run_evs (c : cfg) (total : nat) (s : st) (evs : list ev) : list Z :=
 Definition run_script (sc : list Z) : list Z :=
   let dyn := z2b (zn sc 1) in
   let n := Z.to_nat (zn sc 2) in
-  let c := {| cancel := z2b (zn sc 0);
+  let c := {| cancel := Z.odd (zn sc 0);   (* bit 1 of this field only picks the builder call order in the harness *)
               tmo := fun i => Z.max 0 (if dyn then zn sc (4 + i) else zn sc 3) |} in
   run_evs c n init (evs_of n (chunk3 (skipn (4 + n) sc))).
